@@ -50,6 +50,27 @@ def gen_h1(src, out):
     if not m:
         problems.append("hoff[] size not found in h1.c")
     txt += "Definition HOFF_SIZE : N := %s%%N.\n" % (m.group(1) if m else "0")
+    # h1_chunked / h1_recv_headers: the limits and the keep-alive decisions the connection model depends on
+    body = None
+    mm = re.search(r"\bh1_chunked\s*\(request_st[^)]*\)\s*\{", h1)
+    if mm:
+        i = mm.end(); d = 1
+        while i < len(h1) and d: d += (h1[i] == "{") - (h1[i] == "}"); i += 1
+        body = h1[mm.end():i]
+    if not body: problems.append("h1_chunked() not found"); body = ""
+    lims = set(re.findall(r"hsz\s*>=\s*(\d+)", body)) | set(re.findall(r"c->offset\s*>=\s*(\d+)", body))
+    if len(lims) != 1: problems.append("h1_chunked(): chunk header line limit not found in its known form (%s)" % sorted(lims))
+    txt += "Definition CHUNK_LINE_MAX : N := %s%%N.\n" % (sorted(lims)[0] if len(lims) == 1 else "0")
+    cut = re.search(r"max_request_field_size\s*\)\s*\{\s*break\s*;\s*\}\s*else\s*\{(.*?)p\s*=\s*c->mem->ptr\s*\+\s*buffer_clen", body, flags=re.S)
+    if not cut: problems.append("h1_chunked(): over-long trailer branch not found")
+    txt += "Definition trailer_cut_clears_keepalive : bool := %s.\n" % ("true" if cut and re.search(r"\br->keep_alive\s*=\s*0\s*;", cut.group(1)) else "false")
+    txt += "Definition trailer_found_over_limit_clears_keepalive : bool := %s.\n" % (
+        "true" if re.search(r"if\s*\(\s*hsz\s*>\s*\(off_t\)\s*r->conf\.max_request_field_size\s*\)\s*r->keep_alive\s*=\s*0\s*;", body) else "false")
+    txt += "Definition lone_cr_after_request_waits : bool := %s.\n" % (
+        "true" if re.search(r"if\s*\(\s*discard_blank\s*&&\s*1\s*==\s*clen\s*&&\s*c->mem->ptr\[c->offset\]\s*==\s*'\\r'\s*\)\s*continue\s*;", h1) else "false")
+    fb = re.search(r"\(\(unsigned char \*\)c->mem->ptr\)\[c->offset\]\s*<\s*(\d+)", h1)
+    if not fb: problems.append("h1_recv_headers(): first-byte test not found")
+    txt += "Definition FIRST_BYTE_MIN : N := %s%%N.\n" % (fb.group(1) if fb else "0")
     write_if_changed(os.path.join(out, "GenH1.v"), txt)
 
 
